@@ -4,6 +4,7 @@ import MidnightZK.Proofs.C04.Bool
 import MidnightZK.Proofs.C04.Range2
 import MidnightZK.Proofs.C04.DivRem
 import MidnightZK.Proofs.C04.Complete
+import MidnightZK.Proofs.C04.Bytes
 /-!
 # C04 — native-field gadgets are complete and sound w.r.t. their mathematical meaning
 
@@ -310,6 +311,259 @@ theorem lower_than_sound (hR : RangeSound R) (p : Nat)
     (hc : s.CacheOK asg) (h : (lowerThan s x bx y by_).2.Holds R asg) :
     asg (lowerThan s x bx y by_).1 = if nx < ny then 1 else 0 :=
   lowerThan_sound hR p hinj s x bx y by_ asg nx ny hx hnx hy hny hm h0 h4 hopt hc h
+
+/-! ## The bound cache of `NativeGadget` (`constrained_cells`) -/
+
+/-- **`assert_lower_than_fixed`, every path.** `St.BoundsOK s asg` — every strict upper bound
+recorded in `constrained_cells` holds under `asg` — is an invariant of all emitters (each
+`_sound` lemma re-establishes it), so the early return on a recorded smaller bound is justified:
+every accepted assignment has `x = M` for a natural number `M < bound`. Completes
+`assert_lower_than_fixed_sound_partial`. -/
+theorem assert_lower_than_fixed_sound (hR : RangeSound R) (s : St F) (x : Cell) (bound : Nat)
+    (asg : Cell → F) (hb : 0 < bound) (h0 : 0 < s.nrCols) (h4 : s.nrCols ≤ 4)
+    (hopt : OptOK s bound.log2) (hc : s.CacheOK asg) (hB : s.BoundsOK asg)
+    (h : (assertLowerThanFixed s x bound).Holds R asg) :
+    (assertLowerThanFixed s x bound).CacheOK asg ∧ (assertLowerThanFixed s x bound).BoundsOK asg ∧
+    ∃ M : Nat, M < bound ∧ asg x = (M : F) :=
+  assertLowerThanFixed_sound hR s x bound asg hb h0 h4 hopt hc hB h
+
+/-- The invariant is not vacuous and is what the early return uses: in the state after
+`assert_lower_than_fixed(x, 5)` a later `assert_lower_than_fixed(x, 9)` emits nothing, and the
+recorded bound gives `x < 9`. -/
+example (s : St F) (x : Cell) (asg : Cell → F) (hB : (s.updateBound x 5).BoundsOK asg) :
+    assertLowerThanFixed (s.updateBound x 5) x 9 = s.updateBound x 5 ∧
+    ∃ M : Nat, M < 9 ∧ asg x = (M : F) := by
+  have hle : (s.updateBound x 5).boundLe x 9 = true := by
+    unfold St.boundLe St.updateBound St.getBound
+    cases hf : s.bounds.find? (fun p => p.1 = x) with
+    | none => simp [hf]
+    | some p => simp [hf]; omega
+  exact ⟨by unfold assertLowerThanFixed; simp [hle], boundLe_sound _ asg hB x 9 hle⟩
+
+/-- `assign_lower_than_fixed` for every positive bound (power of two or not). -/
+theorem assign_lower_than_fixed_sound (hR : RangeSound R) (s : St F) (bound : Nat) (asg : Cell → F)
+    (hb : 0 < bound) (h0 : 0 < s.nrCols) (h4 : s.nrCols ≤ 4) (hopt : OptOK s bound.log2)
+    (hc : s.CacheOK asg) (hB : s.BoundsOK asg) (h : (assignLowerThanFixed s bound).2.Holds R asg) :
+    ∃ M : Nat, M < bound ∧ asg (assignLowerThanFixed s bound).1 = (M : F) :=
+  (assignLowerThanFixed_sound hR s bound asg hb h0 h4 hopt hc hB h).2.2
+
+/-- `assign_lower_than_fixed(v, 0)`: the code returns the fixed cell 0 whatever `v` is, although
+no value is below 0 (recorded in findings/C04.json as `range:zero-bound`). The full-strength
+statement "the result is below the bound" is therefore false for `bound = 0`. -/
+theorem assign_lower_than_fixed_zero_bound (s : St F) (asg : Cell → F) (hc : s.CacheOK asg)
+    (h : (assignLowerThanFixed s 0).2.Holds R asg) :
+    asg (assignLowerThanFixed s 0).1 = 0 ∧
+    ¬ ∃ M : Nat, M < 0 ∧ asg (assignLowerThanFixed s 0).1 = (M : F) :=
+  ⟨assignLowerThanFixed_zero s asg hc h, fun ⟨M, hM, _⟩ => by omega⟩
+
+/-! ## Decomposition into limbs, bits, bytes, chunks; sign; canonicity -/
+
+/-- **`decompose_core`, limb level**: each non-zero-sized limb cell holds a natural number below
+`2^size`, and the recomposed cell holds their little-endian recomposition (every limb-size list
+with the structure the Rust code asserts, 1..4 lookup columns). -/
+theorem decompose_core_limbs_sound (hR : RangeSound R) (s : St F) (sizes : List Nat) (asg : Cell → F)
+    (h0 : 0 < s.nrCols) (h4 : s.nrCols ≤ 4) (hok : sizesOK s.nrCols sizes) (hc : s.CacheOK asg)
+    (h : (decomposeCore s sizes).2.Holds R asg) :
+    ∃ vs : List Nat, LimbVals (sizes.filter (· ≠ 0)) vs ∧
+      CellsHold asg (decomposeCore s sizes).1.2 vs ∧
+      asg (decomposeCore s sizes).1.1 = ((recomp (sizes.filter (· ≠ 0)) vs : Nat) : F) :=
+  (decomposeCore_limbs_sound hR s sizes asg h0 h4 hok hc h).2
+
+/-- Limbs are unique: values `vs` below `2^sizeᵢ` are the digits of their recomposition
+(`limbsOf`, the specification the correspondence run evaluates; cpu_utils.rs
+`decompose_in_variable_limbsizes`), and the recomposition is below `2^(Σ sizes)`. -/
+theorem limbs_unique (sizes vs : List Nat) (h : LimbVals sizes vs) :
+    limbsOf (recomp sizes vs) sizes = vs ∧ recomp sizes vs < 2 ^ sizes.sum :=
+  ⟨limbsOf_recomp sizes vs h, recomp_lt sizes vs h⟩
+
+/-- **`decompose_fixed_limb_size`** with limbs checked by lookups (`limb_size ≤ max_bit_len`),
+every bit length and limb size, including a shorter last limb and the zero-sized padding limbs. -/
+theorem decompose_fixed_limb_size_sound (hR : RangeSound R) (s : St F) (x : Cell)
+    (bitLength limbSize : Nat) (asg : Cell → F) (hls : limbSize ≠ 0) (hmb : limbSize ≤ s.maxBitLen)
+    (h0 : 0 < s.nrCols) (h4 : s.nrCols ≤ 4) (hc : s.CacheOK asg)
+    (h : (decomposeFixedLimbSize s x bitLength limbSize).2.Holds R asg) :
+    ∃ vs : List Nat, LimbVals (dflSizes bitLength limbSize) vs ∧
+      CellsHold asg (decomposeFixedLimbSize s x bitLength limbSize).1 vs ∧
+      asg x = ((recomp (dflSizes bitLength limbSize) vs : Nat) : F) :=
+  (decomposeFixedLimbSize_sound hR s x bitLength limbSize asg hls hmb h0 h4 hc h).2.2.2
+
+/-- **`assigned_to_le_bits`** with an explicit number of bits: exactly `nb` cells, each holding 0
+or 1, with `x = Σ 2^i·bitᵢ`; a value that does not fit makes the circuit unsatisfiable. -/
+theorem assigned_to_le_bits_sound (hR : RangeSound R) (s : St F) (x : Cell) (nb numBits halfP : Nat)
+    (asg : Cell → F) (hne : nb ≠ numBits) (hmb : 1 ≤ s.maxBitLen)
+    (h0 : 0 < s.nrCols) (h4 : s.nrCols ≤ 4) (hc : s.CacheOK asg) (canon : Bool)
+    (h : (assignedToLeBits s x (some nb) canon numBits halfP).2.Holds R asg) :
+    ∃ bs : List Nat, bs.length = nb ∧ (∀ b ∈ bs, b < 2) ∧
+      CellsHold asg (assignedToLeBits s x (some nb) canon numBits halfP).1 bs ∧
+      asg x = ((fromLimbs 2 bs : Nat) : F) :=
+  (assignedToLeBits_sound hR s x nb numBits halfP asg hne hmb h0 h4 hc canon h).2.2
+
+/-- **`sgn0`**: in a field of odd characteristic `p` the output is the parity of the canonical
+representative of `x`. -/
+theorem sgn0_sound' (hR : RangeSound R) (p : Nat) (hodd : p % 2 = 1) (hp0 : ((p : Nat) : F) = 0)
+    (hinj : ∀ a b : Nat, a < p → b < p → ((a : Nat) : F) = ((b : Nat) : F) → a = b)
+    (s : St F) (x : Cell) (asg : Cell → F)
+    (h0 : 0 < s.nrCols) (h4 : s.nrCols ≤ 4) (hopt : OptOK s ((p + 1) / 2).log2)
+    (hc : s.CacheOK asg) (hB : s.BoundsOK asg) (h : (sgn0 s x ((p + 1) / 2)).2.Holds R asg) :
+    ∃ X : Nat, X < p ∧ asg x = (X : F) ∧ asg (sgn0 s x ((p + 1) / 2)).1 = ((X % 2 : Nat) : F) :=
+  (sgn0_sound hR p hodd hp0 hinj s x asg h0 h4 hopt hc hB h).2.2
+
+/-- **Canonical bits** (`assigned_to_le_bits(x, None, true)`): the `numBits` bits are the binary
+digits of the canonical representative of `x`; the alias `x + p < 2^numBits` is rejected. -/
+theorem assigned_to_le_bits_canonical_sound (hR : RangeSound R) (p : Nat) (hodd : p % 2 = 1)
+    (hp2 : 2 < p) (hp0 : ((p : Nat) : F) = 0)
+    (hinj : ∀ a b : Nat, a < p → b < p → ((a : Nat) : F) = ((b : Nat) : F) → a = b)
+    (numBits : Nat) (hnb0 : 0 < numBits) (hnb : 2 ^ numBits ≤ 2 * p)
+    (s : St F) (x : Cell) (asg : Cell → F) (hmb : 1 ≤ s.maxBitLen)
+    (h0 : 0 < s.nrCols) (h4 : s.nrCols ≤ 4) (hopt : OptOK s ((p + 1) / 2).log2)
+    (hc : s.CacheOK asg) (hB : s.BoundsOK asg)
+    (h : (assignedToLeBits s x none true numBits ((p + 1) / 2)).2.Holds R asg) :
+    ∃ bs : List Nat, bs.length = numBits ∧ (∀ b ∈ bs, b < 2) ∧
+      CellsHold asg (assignedToLeBits s x none true numBits ((p + 1) / 2)).1 bs ∧
+      asg x = ((fromLimbs 2 bs : Nat) : F) ∧ fromLimbs 2 bs < p :=
+  (assignedToLeBits_canonical_sound hR p hodd hp2 hp0 hinj numBits hnb0 hnb s x asg hmb h0 h4 hopt hc hB h).2.2
+
+/-- The numeric side conditions of the canonicity theorems hold for the native modulus dumped
+from the running code. -/
+theorem native_modulus_canonicity_conditions :
+    Gen.nativeModulus % 2 = 1 ∧ 2 < Gen.nativeModulus ∧ 0 < Gen.nativeNumBits ∧
+    2 ^ Gen.nativeNumBits ≤ 2 * Gen.nativeModulus ∧ Gen.nativeModulus < 2 ^ Gen.nativeNumBits := by
+  decide +kernel
+
+/-- **`assigned_to_le_bytes`**: short form (explicit byte count) and full width (canonical). -/
+theorem assigned_to_le_bytes_sound (hR : RangeSound R) (s : St F) (x : Cell) (nb numBits halfP : Nat)
+    (asg : Cell → F) (hne : nb ≠ (numBits + 7) / 8) (hmb : 8 ≤ s.maxBitLen)
+    (h0 : 0 < s.nrCols) (h4 : s.nrCols ≤ 4) (hc : s.CacheOK asg)
+    (h : (assignedToLeBytes s x (some nb) numBits halfP).2.Holds R asg) :
+    ∃ ys : List Nat, ys.length = nb ∧ (∀ y ∈ ys, y < 256) ∧
+      CellsHold asg (assignedToLeBytes s x (some nb) numBits halfP).1 ys ∧
+      asg x = ((fromLimbs 256 ys : Nat) : F) :=
+  (assignedToLeBytes_sound hR s x nb numBits halfP asg hne hmb h0 h4 hc h).2.2
+
+theorem assigned_to_le_bytes_full_sound (hR : RangeSound R) (p : Nat) (hodd : p % 2 = 1)
+    (hp2 : 2 < p) (hp0 : ((p : Nat) : F) = 0)
+    (hinj : ∀ a b : Nat, a < p → b < p → ((a : Nat) : F) = ((b : Nat) : F) → a = b)
+    (numBits : Nat) (hnb0 : 0 < numBits) (hnb : 2 ^ numBits ≤ 2 * p)
+    (s : St F) (x : Cell) (asg : Cell → F) (hmb : 1 ≤ s.maxBitLen)
+    (h0 : 0 < s.nrCols) (h4 : s.nrCols ≤ 4) (hopt : OptOK s ((p + 1) / 2).log2)
+    (hc : s.CacheOK asg) (hB : s.BoundsOK asg)
+    (h : (assignedToLeBytes s x none numBits ((p + 1) / 2)).2.Holds R asg) :
+    ∃ ys : List Nat, ys.length = (numBits + 7) / 8 ∧ (∀ y ∈ ys, y < 256) ∧
+      CellsHold asg (assignedToLeBytes s x none numBits ((p + 1) / 2)).1 ys ∧
+      asg x = ((fromLimbs 256 ys : Nat) : F) ∧ fromLimbs 256 ys < p :=
+  (assignedToLeBytes_full_sound hR p hodd hp2 hp0 hinj numBits hnb0 hnb s x asg hmb h0 h4 hopt hc hB h).2.2
+
+/-- **`assigned_to_le_chunks`** (chunk width `≤ max_bit_len`). -/
+theorem assigned_to_le_chunks_sound (hR : RangeSound R) (s : St F) (x : Cell) (per n numBits : Nat)
+    (asg : Cell → F) (hper : 0 < per) (hmb : per ≤ s.maxBitLen)
+    (h0 : 0 < s.nrCols) (h4 : s.nrCols ≤ 4) (hc : s.CacheOK asg)
+    (h : (assignedToLeChunks s x per (some n) numBits).2.Holds R asg) :
+    ∃ vs : List Nat, vs.length = n ∧ (∀ v ∈ vs, v < 2 ^ per) ∧
+      CellsHold asg (assignedToLeChunks s x per (some n) numBits).1 vs ∧
+      asg x = ((fromLimbs (2 ^ per) vs : Nat) : F) :=
+  (assignedToLeChunks_sound hR s x per n numBits asg hper hmb h0 h4 hc h).2.2
+
+/-- **`le_bits_geq_than`**, **`le_bits_lower_than`** (hence `is_canonical` = `lower_than p`):
+for EVERY number of bits and EVERY bound the output is `[Σ 2^i·bitᵢ ≥ bound]`, resp. `<`. -/
+theorem le_bits_comparisons_sound (s : St F) (bits : List Cell) (bound : Nat) (bs : List Nat)
+    (asg : Cell → F) (hcells : CellsHold asg bits bs) (hbits : ∀ b ∈ bs, b < 2) (hc : s.CacheOK asg) :
+    ((leBitsGeqThan s bits bound).2.Holds R asg →
+      asg (leBitsGeqThan s bits bound).1 = if bound ≤ fromLimbs 2 bs then 1 else 0) ∧
+    ((leBitsLowerThan s bits bound).2.Holds R asg →
+      asg (leBitsLowerThan s bits bound).1 = if fromLimbs 2 bs < bound then 1 else 0) := by
+  constructor
+  · intro h
+    have := ((leBitsGeqThan_sound (R := R) bits.length s bits bound bs asg rfl hcells hbits hc).2.2 h).2
+    rw [this]; by_cases hh : bound ≤ fromLimbs 2 bs <;> simp [bF, hh]
+  · intro h
+    have := (leBitsLowerThan_sound s bits bound bs asg hcells hbits hc h).2
+    rw [this]; by_cases hh : fromLimbs 2 bs < bound <;> simp [bF, hh]
+
+/-- **`assigned_from_le_bits`**, **`assigned_from_le_bytes`**: `Σ 2^i·bitᵢ`, `Σ 256^i·byteᵢ`. -/
+theorem assigned_from_le_sound (s : St F) (cells : List Cell) (vs : List Nat) (asg : Cell → F)
+    (hcells : CellsHold asg cells vs) (hc : s.CacheOK asg) (hB : s.BoundsOK asg) :
+    ((∀ v ∈ vs, v < 2) → (assignedFromLeBits s cells).2.Holds R asg →
+      asg (assignedFromLeBits s cells).1 = ((fromLimbs 2 vs : Nat) : F)) ∧
+    ((∀ v ∈ vs, v < 256) → (assignedFromLeBytes s cells).2.Holds R asg →
+      asg (assignedFromLeBytes s cells).1 = ((fromLimbs 256 vs : Nat) : F)) :=
+  ⟨fun hv h => (assignedFromLeBits_sound s cells vs asg hcells hv hc hB h).2.2,
+   fun hv h => (assignedFromLeBytes_sound s cells vs asg hcells hv hc hB h).2.2⟩
+
+/-- **Conversions native → bit / byte** of the gadget (constraint path and bound-cache path). -/
+theorem conversions_sound (hR : RangeSound R) (s : St F) (x : Cell) (asg : Cell → F)
+    (h0 : 0 < s.nrCols) (h4 : s.nrCols ≤ 4) (hopt : OptOK s 8) (hc : s.CacheOK asg)
+    (hB : s.BoundsOK asg) :
+    ((gConvertToBit s x).2.Holds R asg →
+      asg (gConvertToBit s x).1 = asg x ∧ ∃ n : Nat, n < 2 ∧ asg x = (n : F)) ∧
+    ((gConvertToByte s x).2.Holds R asg →
+      asg (gConvertToByte s x).1 = asg x ∧ ∃ n : Nat, n < 256 ∧ asg x = (n : F)) :=
+  ⟨fun h => (gConvertToBit_sound s x asg hc hB h).2.2,
+   fun h => (gConvertToByte_sound hR s x asg h0 h4 hopt hc hB h).2.2⟩
+
+/-! ## Comparisons -/
+
+/-- **`lower_than_fixed`** (constraint path and both shortcuts). -/
+theorem lower_than_fixed_sound (hR : RangeSound R) (p : Nat)
+    (hinj : ∀ a b : Nat, a < p → b < p → ((a : Nat) : F) = ((b : Nat) : F) → a = b)
+    (s : St F) (x : Cell) (bx y : Nat) (asg : Cell → F)
+    (nx : Nat) (hx : asg x = (nx : F)) (hnx : nx < 2 ^ bx) (hy : y < p) (hm : 2 * 2 ^ bx ≤ p)
+    (h0 : 0 < s.nrCols) (h4 : s.nrCols ≤ 4) (hopt : OptOK s bx)
+    (hc : s.CacheOK asg) (hB : s.BoundsOK asg) (h : (lowerThanFixed s x bx y).2.Holds R asg) :
+    asg (lowerThanFixed s x bx y).1 = if nx < y then 1 else 0 := by
+  rw [(lowerThanFixed_sound hR p hinj s x bx y asg nx hx hnx hy hm h0 h4 hopt hc hB h).2.2]
+  by_cases hh : nx < y <;> simp [bF, hh]
+
+/-- **`leq`, `geq`, `greater_than`** on bounded values. -/
+theorem leq_geq_greater_than_sound (hR : RangeSound R) (p : Nat)
+    (hinj : ∀ a b : Nat, a < p → b < p → ((a : Nat) : F) = ((b : Nat) : F) → a = b)
+    (s : St F) (x : Cell) (bx : Nat) (y : Cell) (by_ : Nat) (asg : Cell → F)
+    (nx ny : Nat) (hx : asg x = (nx : F)) (hnx : nx < 2 ^ bx) (hy : asg y = (ny : F))
+    (hny : ny < 2 ^ by_) (hm : 2 * 2 ^ (max bx by_) ≤ p)
+    (h0 : 0 < s.nrCols) (h4 : s.nrCols ≤ 4) (hopt : OptOK s (max bx by_))
+    (hc : s.CacheOK asg) (hB : s.BoundsOK asg) :
+    ((leq s x bx y by_).2.Holds R asg → asg (leq s x bx y by_).1 = if nx ≤ ny then 1 else 0) ∧
+    ((geq s x bx y by_).2.Holds R asg → asg (geq s x bx y by_).1 = if ny ≤ nx then 1 else 0) ∧
+    ((greaterThan s x bx y by_).2.Holds R asg →
+      asg (greaterThan s x bx y by_).1 = if ny < nx then 1 else 0) := by
+  refine ⟨fun h => ?_, fun h => ?_, fun h => ?_⟩
+  · rw [(leq_sound hR p hinj s x bx y by_ asg nx ny hx hnx hy hny hm h0 h4 hopt hc hB h).2.2]
+    by_cases hh : nx ≤ ny <;> simp [bF, hh]
+  · rw [(geq_sound hR p hinj s x bx y by_ asg nx ny hx hnx hy hny hm h0 h4 hopt hc hB h).2.2]
+    by_cases hh : ny ≤ nx <;> simp [bF, hh]
+  · rw [(greaterThan_sound hR p hinj s x bx y by_ asg nx ny hx hnx hy hny hm h0 h4 hopt hc hB h).2.2]
+    by_cases hh : ny < nx <;> simp [bF, hh]
+
+/-- **`leq_fixed`, `geq_fixed`, `greater_than_fixed`** for constants with `c + 1 < p`. -/
+theorem fixed_comparisons_sound' (hR : RangeSound R) (p : Nat)
+    (hinj : ∀ a b : Nat, a < p → b < p → ((a : Nat) : F) = ((b : Nat) : F) → a = b)
+    (s : St F) (x : Cell) (bx c : Nat) (asg : Cell → F)
+    (nx : Nat) (hx : asg x = (nx : F)) (hnx : nx < 2 ^ bx) (hcp : c + 1 < p) (hm : 2 * 2 ^ bx ≤ p)
+    (h0 : 0 < s.nrCols) (h4 : s.nrCols ≤ 4) (hopt : OptOK s bx)
+    (hc : s.CacheOK asg) (hB : s.BoundsOK asg) :
+    ((leqFixed s x bx c p).2.Holds R asg →
+      asg (leqFixed s x bx c p).1 = if nx ≤ c then 1 else 0) ∧
+    ((geqFixed s x bx c).2.Holds R asg →
+      asg (geqFixed s x bx c).1 = if c ≤ nx then 1 else 0) ∧
+    ((greaterThanFixed s x bx c p).2.Holds R asg →
+      asg (greaterThanFixed s x bx c p).1 = if c < nx then 1 else 0) := by
+  obtain ⟨a, b, d⟩ := fixed_comparisons_sound hR p hinj s x bx c asg nx hx hnx hcp hm h0 h4 hopt hc hB
+  refine ⟨fun h => ?_, fun h => ?_, fun h => ?_⟩
+  · rw [(a h).2.2]; by_cases hh : nx ≤ c <;> simp [bF, hh]
+  · rw [(b h).2.2]; by_cases hh : c ≤ nx <;> simp [bF, hh]
+  · rw [(d h).2.2]; by_cases hh : c < nx <;> simp [bF, hh]
+
+/-! ## More arithmetic -/
+
+/-- **`pow`**: `x^n` for every `u64` exponent. -/
+theorem pow_sound' (s : St F) (x : Cell) (n : Nat) (hn : n < 2 ^ 64) (asg : Cell → F)
+    (hc : s.CacheOK asg) (h : (pow s x n).2.Holds R asg) : asg (pow s x n).1 = (asg x) ^ n :=
+  (pow_sound s x n hn asg hc h).2
+
+/-- **`add_constants`** (parallel-add gate): `outᵢ = xᵢ + cᵢ` for lists of every length. -/
+theorem add_constants_sound (s : St F) (xs : List Cell) (cs : List F) (hl : xs.length = cs.length)
+    (asg : Cell → F) (hc : s.CacheOK asg) (h : (addConstants s xs cs).2.Holds R asg) :
+    (addConstants s xs cs).1.map asg = (xs.zip cs).map (fun p => asg p.1 + p.2) :=
+  (addConstants_sound s xs cs hl asg hc h).2.2
 
 /-! ## Integer division by a constant -/
 
